@@ -3,15 +3,16 @@ import engine_common as ec
 import engine_plugin as ep
 
 ID = "C02"
-LEAN_MODULES = ['HgVerif.Props.C02', 'HgVerif.Props.C02Fail', 'HgVerif.Props.C02Reach', 'HgVerif.Model.Engine', 'HgVerif.Model.Extracted']
-THEOREMS = ['HgVerif.Sched.scan_next_lower', 'HgVerif.Sched.scan_next_is_slot', 'HgVerif.Sched.due_node_evaluated', 'HgVerif.Sched.cycle_next_gt', 'HgVerif.Sched.sim_times_strict', 'HgVerif.Sched.sim_times_window', 'HgVerif.Sched.armed_wakeup_honoured', 'HgVerif.Sched.cinv_scanFrom_any', 'HgVerif.Sched.failed_cycle_next_lower', 'HgVerif.Sched.failed_cycle_next_is_slot', 'HgVerif.Sched.armed_wakeup_survives_failure', 'HgVerif.Sched.cycle_keeps_or_evaluates', 'HgVerif.Sched.wakeup_reached', 'HgVerif.Flow.disc_beh', 'HgVerif.Tie.tie_failKeepsWakeups', 'HgVerif.Tie.tie_keepFuture', 'HgVerif.Tie.tie_keepEarlier', 'HgVerif.Tie.tie_slotConsumed', 'HgVerif.Tie.tie_slotEarlier', 'HgVerif.Tie.tie_cacheFuture', 'HgVerif.Tie.tie_cacheEarlier', 'HgVerif.Tie.tie_startFoldFrom', 'HgVerif.Tie.tie_scanRunsWhen', 'HgVerif.Tie.tie_scanFoldFuture']
+LEAN_MODULES = ['HgVerif.Props.NestFlowCor', 'HgVerif.Props.C02', 'HgVerif.Props.C02Fail', 'HgVerif.Props.C02Reach', 'HgVerif.Model.Engine', 'HgVerif.Model.Extracted']
+THEOREMS = ['HgVerif.NestFlow.nested_wakeup_reached', 'HgVerif.NestFlow.firstRunT_eq_firstEval', 'HgVerif.NestFlow.ownFuture_beh', 'HgVerif.Sched.scan_next_lower', 'HgVerif.Sched.scan_next_is_slot', 'HgVerif.Sched.due_node_evaluated', 'HgVerif.Sched.cycle_next_gt', 'HgVerif.Sched.sim_times_strict', 'HgVerif.Sched.sim_times_window', 'HgVerif.Sched.armed_wakeup_honoured', 'HgVerif.Sched.cinv_scanFrom_any', 'HgVerif.Sched.failed_cycle_next_lower', 'HgVerif.Sched.failed_cycle_next_is_slot', 'HgVerif.Sched.armed_wakeup_survives_failure', 'HgVerif.Sched.cycle_keeps_or_evaluates', 'HgVerif.Sched.wakeup_reached', 'HgVerif.Flow.disc_beh', 'HgVerif.Tie.tie_failKeepsWakeups', 'HgVerif.Tie.tie_keepFuture', 'HgVerif.Tie.tie_keepEarlier', 'HgVerif.Tie.tie_slotConsumed', 'HgVerif.Tie.tie_slotEarlier', 'HgVerif.Tie.tie_cacheFuture', 'HgVerif.Tie.tie_cacheEarlier', 'HgVerif.Tie.tie_startFoldFrom', 'HgVerif.Tie.tie_scanRunsWhen', 'HgVerif.Tie.tie_scanFoldFuture']
 CXX_TARGETS = ['hgv_engine']
 USES_EXTRACT = True
 RULE = 'generated graphs with script nodes issuing random scheduler requests (relative/absolute/tagged, cancels, start-phase requests, requests for the current time, equal times from different nodes, consecutive smallest steps) mixed with input-driven evaluation and self-scheduling nodes inside nested graphs; random start/end (requests at/after end); non-trivial = at least 2 cycles with user code; distinct by program text'
 TRUSTED = ['graph schedule array / cache modelled as List Nat / Option Nat (none = MAX_DT)']
 ASSUMPTIONS = ['caller discipline Disc (same-cycle requests target later nodes, future requests target the node itself or earlier nodes) - proved for notifications by the rank theorems (C01) and for the node scheduler by C18', 'times stay below MAX_DT (no overflow)']
 TECHNIQUE = 'Lean 4 proof (invariants of schedule_node / scan / run loop for arbitrary node behaviours) + translator ties on every comparison in schedule_node_impl/start/scan + differential correspondence + reference monitor of pending wake-ups'
-LEVEL_TEXT = 'Kernel-checked for arbitrary node behaviours under the stated caller discipline: after every cycle the cached next time is a lower bound of every future slot and is itself a slot (no wake-up skipped, no cycle at a never-requested time), a node due at the cycle time is evaluated in that cycle, cycle times strictly increase inside [start, end); run level (wakeup_reached): an armed slot s of a node whose future wake-ups only it requests is followed, within s-now cycles, by an evaluation of that node at some time t1 <= s (at s unless an input evaluates it earlier) or by a failing cycle; the loop neither ends nor passes s; the invariant also holds after a cycle ended by a captured exception (fix F5). The executable engine model built on the same definitions is compared trace-for-trace with the compiled runtime; every implementation trace is checked against an independent pending-wake-up reading.'
+LEVEL_TEXT = ('Kernel-checked for arbitrary node behaviours under the stated caller discipline: after every cycle the cached next time is a lower bound of every future slot and is itself a slot (no wake-up skipped, no cycle at a never-requested time), a node due at the cycle time is evaluated in that cycle, cycle times strictly increase inside [start, end); run level (wakeup_reached): an armed slot s of a node whose future wake-ups only it requests is followed, within s-now cycles, by an evaluation of that node at some time t1 <= s (at s unless an input evaluates it earlier) or by a failing cycle; the loop neither ends nor passes s; the invariant also holds after a cycle ended by a captured exception (fix F5). The executable engine model built on the same definitions is compared trace-for-trace with the compiled runtime; every implementation trace is checked against an independent pending-wake-up reading.'
+              " Through nested graphs (Props/NestFlowCor.lean, from nested = inlined of C09Flow): a wake-up a node at ANY nesting level of a chain of nested flat dataflows asked for itself is reached - the root runs a cycle no later than that time in which the node's user code runs (nested_wakeup_reached), for arbitrary node functions, any ranks, any depth.")
 LEVEL_NOTE = 'Trusted: Lean kernel + standard axioms; engine model tied by correspondence; Python monitor; real-time mode is C17.'
 
 
